@@ -234,14 +234,20 @@ struct DirectHost {
     aborts: Aborts,
     reqs: Vec<Option<Request<TestOp>>>,
     canon: bool,
+    /// `(task I*)` commands: the number of live task guards before the command was built
+    guard_base: Option<i64>,
 }
 
 impl DirectHost {
     fn new(cmd: &Cmd, canon: bool) -> Self {
         reset_abort_table();
         let mut aborts: Aborts = vec![];
+        let guard_base = match cmd {
+            Cmd::Task(_) => Some(harness::dsl::LIVE_TASK_GUARDS.load(std::sync::atomic::Ordering::SeqCst)),
+            _ => None,
+        };
         let c = build(cmd, &Env::default(), &mut aborts);
-        DirectHost { cmd: c, aborts, reqs: vec![], canon }
+        DirectHost { cmd: c, aborts, reqs: vec![], canon, guard_base }
     }
     fn observe(&mut self, res: &str) -> Obs {
         let effs = unwrap_effs(self.cmd.effects().collect());
@@ -252,7 +258,11 @@ impl DirectHost {
         canon_order(self.canon, &mut items);
         let views = items.iter().map(|(v, _)| v.clone()).collect();
         self.reqs.extend(items.into_iter().map(|(_, r)| Some(r)));
-        Obs { res: res.into(), effs: views, probe: None, events, done: Some(done), tail: format!("d{} t{}", done as u8, live) }
+        let mut tail = format!("d{} t{}", done as u8, live);
+        if let Some(base) = self.guard_base {
+            tail.push_str(&format!(" g{}", harness::dsl::LIVE_TASK_GUARDS.load(std::sync::atomic::Ordering::SeqCst) - base));
+        }
+        Obs { res: res.into(), effs: views, probe: None, events, done: Some(done), tail }
     }
 }
 
